@@ -341,7 +341,9 @@ class _Page(T.Sort):
         B = [Comp("pdfminer.layout:LTTextBoxHorizontal", index=T.Const(-1)).fresh(ctx, "B%d" % k) for k in range(2)]
         for k, b in enumerate(B):
             b.name = "B%d" % k
-        G = SObj(lay.LTTextGroupLRTB, {"_objs": [B[1], B[0]]}, "G")
+        if ctx.choose(["two-boxes", "no-box"], "boxes") == "no-box":
+            B = []                # every line was blank or degenerate, or the lines formed no box
+        G = SObj(lay.LTTextGroupLRTB, {"_objs": [B[1], B[0]]}, "G") if B else None
         o.parts = dict(c0=c0, c1=c1, fig=fig, L0=L0, L1=L1, B=B, G=G)
         return o
     def sample(self, rng):
@@ -360,7 +362,7 @@ c.stubs = {
     "pdfminer.layout:LTLayoutContainer.group_textlines": _mk_stub("pdfminer.layout:LTLayoutContainer.group_textlines", ["self", "laparams", "lines"],
                                                                   lambda self: list(self.parts["B"])),
     "pdfminer.layout:LTLayoutContainer.group_textboxes": _mk_stub("pdfminer.layout:LTLayoutContainer.group_textboxes", ["self", "laparams", "boxes"],
-                                                                  lambda self: [self.parts["G"]]),
+                                                                  lambda self: [self.parts["G"]] if self.parts["G"] is not None else []),
     "pdfminer.layout:LTTextLine.is_empty": _mk_stub("pdfminer.layout:LTTextLine.is_empty", ["self"], lambda self: self.f["_empty"]),
     "pdfminer.layout:LTTextLine.analyze": _mk_stub("pdfminer.layout:LTTextLine.analyze", ["self", "laparams"]),
     "pdfminer.layout:LTFigure.analyze": _mk_stub("pdfminer.layout:LTFigure.analyze", ["self", "laparams"]),
@@ -375,6 +377,10 @@ def _analyze_spec(self, laparams, trace):
     names = [getattr(o, "name", None) for o in out]
     calls = [(n.split(".")[-2] + "." + n.split(".")[-1], b) for n, b in trace]
     analysed = [b["self"].name for n, b in calls if n.endswith(".analyze")]
+    if not P_["B"]:
+        # no text box: the non-text items and the empty lines are still there, each once
+        go = [b for n, b in calls if n == "LTLayoutContainer.group_objects"]
+        return names == ["fig", "L1"] and sorted(analysed) == ["L1", "fig"] and len(go) == 1
     ok = (len(out) == 4 and sorted(names[:2]) == ["B0", "B1"] and names[2:] == ["fig", "L1"]
           and sorted(analysed) == sorted(["fig", "L1"] + (["B0", "B1"] if laparams.boxes_flow is None else ["G"])))
     if not ok:
